@@ -33,6 +33,10 @@ def scenario(ctx, i, trainer=None):
     C, D = 2, int(r.integers(2, 4))
     n_small = int(r.integers(3, 7))
     N = n_small if (r.random() < 0.35 and trainer in ("kmeans", "gmm_ml", "gmm_map")) else int(r.integers(8, 20))
+    wide = bool(trainer in ("kmeans", "gmm_ml", "gmm_map") and r.random() < 0.15)
+    if wide:  # fewer samples than features, the feature axis cut into several blocks
+        D = int(r.integers(5, 9))
+        N = int(r.integers(2, D))
     if trainer in ("isv", "jfa", "wccn", "whitening"):
         N = max(N, 4 * D + 4)
     w, m, v, _ = gen.gmm_params(r, C, D, scales=np.ones(D))
@@ -47,8 +51,10 @@ def scenario(ctx, i, trainer=None):
     else:
         rows = gen.random_composition(r, N)
     cols = (D,)
-    if trainer in ("kmeans", "gmm_ml", "gmm_map") and r.random() < 0.25 and D >= 2:
+    if trainer in ("kmeans", "gmm_ml", "gmm_map") and (wide or r.random() < 0.25) and D >= 2:
         cols = gen.random_composition(r, D)
+        if wide and len(cols) < 2:
+            cols = (D // 2, D - D // 2)
     return dict(trainer=trainer, C=C, D=D, w=w, m=m, v=v, X=X, y=y, rows=rows, cols=cols, steps=int(r.integers(1, 4)), thr=None if r.random() < 0.5 else 1e-3)
 
 
